@@ -464,6 +464,28 @@ def numeric_programs(seed, n, host_types=False, depth=3):
     return out
 
 
+def literal_arithmetic_programs(seed, n):
+    """Arithmetic written entirely with literals - numbers, True / False / None, strings, list literals - incl. towers of
+    powers and products whose exact value has far more than 28 digits: nothing but the guarded operators may compute them."""
+    r = random.Random(seed)
+    atoms = ['True', 'False', '2', '3', '10', '0.5', '(True + True)', '(True + True + True)', '-True', '99999999999999999999', '7.25', 'None', '"ab"', '[1, 2]']
+
+    def e(d):
+        if d == 0 or r.random() < 0.25:
+            return r.choice(atoms)
+        op = r.choice(['+', '-', '*', '*', '**', '**', '/'])
+        return '(%s %s %s)' % (e(d - 1), op, e(d - 1))
+    out = []
+    for _ in range(n):
+        lines = [e(r.choice([1, 2, 3]))]
+        if r.random() < 0.3:
+            lines.append('(True + True) ** ((True + True) ** %s)' % r.choice(['7', '(True + True + True)', '(3 + 4)', '9']))
+        if r.random() < 0.2:
+            lines.append('x = %s\nx * x * x' % e(2))
+        out.append({'names': [{}], 'host': {}, 'calls': [{'src': '\n'.join(lines), 'n': 0, 'max': 300}]})
+    return out
+
+
 def shadowed_cast_programs(seed, n):
     """C04 where the numeric-cast builtins are not what their names say: int / float / round / floor / ceil / abs shadowed by a
     host function (identity) or by a lambda of the program, applied to host ints, strings and lists that are then multiplied,
@@ -591,6 +613,10 @@ def confinement_programs(seed, n):
                                        'r6 = sorted(d)', 'r6 = l[::-1] if False else l[0:1]', 'r6 = pretty(user)', 'r6 = "{0.__class__}" + n']))
             else:
                 lines.append('r7 = [%s]' % ', '.join(r.choice(args) for _ in range(r.randrange(1, 4))))
+        if r.random() < 0.2:
+            # the flags argument of the regex builtins with every letter the engine may know (and some it does not)
+            fl = ''.join(r.choice('aAbBdDeEfFiILmMpPrRsStTuUvVwWxXzZ01 ') for _ in range(r.randrange(1, 4)))
+            lines.append('r8 = %s("aab ab", "a+b", "%s")' % (r.choice(['match', 'match_groups', 'match_all']), fl))
         lines.append('[r1, r2]' if r.random() < 0.3 else 'None')
         out.append({'names': [names], 'host': {}, 'calls': [{'src': '\n'.join(lines), 'n': 0, 'max': 600}]})
     return out
